@@ -6,9 +6,11 @@ usage: mutant_eval.py <PROP> <n> [tier] [extra check ids...]"""
 import json, os, subprocess, sys, shutil, re, glob
 prop, n = sys.argv[1], sys.argv[2]
 tier = sys.argv[3] if len(sys.argv) > 3 else "quick"
-extra = sys.argv[4:]
-D = f"/tmp/mut/{prop}.out/{n}"
-WT = f"/tmp/mut/{prop}"
+extra = [a for a in sys.argv[4:] if not a.startswith("--")]
+wave = next((a.split("=")[1] for a in sys.argv[4:] if a.startswith("--wave=")), "1")
+BASE = "/tmp/mut" if wave == "1" else f"/tmp/mut/w{wave}"
+D = f"{BASE}/{prop}.out/{n}"
+WT = f"{BASE}/{prop}"
 patch = f"{D}/patch.diff"
 res = {"property": prop, "mutant": n, "patch": patch}
 def sh(cmd, cwd=None, timeout=3600, env=None):
@@ -76,4 +78,5 @@ res["checks"] = results
 assert sh("git status --porcelain", cwd="/repo")[1].strip() == "", "/repo not clean after eval"
 print(json.dumps(res, indent=1))
 os.makedirs("/tmp/mut/results", exist_ok=True)
-json.dump(res, open(f"/tmp/mut/results/{prop}-{n}-{tier}.json", "w"), indent=1)
+tag = "" if wave == "1" else f"w{wave}-"
+json.dump(res, open(f"/tmp/mut/results/{tag}{prop}-{n}-{tier}.json", "w"), indent=1)
